@@ -16,7 +16,7 @@ ANCHOR_FILES = [
 ]
 RULE = (
     "seeded cases per operator: translate (fourier_shift_expand / fourier_translation_operator, numpy+torch, complex128/complex64/real, ROI 4..32 odd/even/non-square, "
-    "1-4 modes, batch 1-6, shifts in +-2N incl. integers), propagate (_compute_propagator_arrays with signed thicknesses 0.1..50 A, tilts 0..30 mrad, 30-300 keV, and both "
+    "1-4 modes, batch 1-6, shifts in +-2N incl. integers), propagate (_compute_propagator_arrays with signed thicknesses 0.1..50 A, tilts 0..30 mrad, 30-300 keV, sampling 0.1..0.6 A, and both "
     "_propagate_array implementations), adjoint (sum_patches / sum_patches_base vs _get_obj_patches on wrap-around patch index sets with repeats and on arbitrary index sets), "
     "detector (Parseval), projection (fourier_projection single/mixed state on a real Ptychography instance, measured amplitudes with exact zeros, read back through "
     "DetectorPixelated.forward), chain (explicit forward chain on a scene with hostile raw pure-phase/potential object and random probe) and insitu (reconstruct() with "
@@ -29,6 +29,12 @@ RULE = (
     "8..80 patches of 12..48 px), 70% of them non-zero-mean patch values, and the adjoint identity is additionally judged pixel by pixel (single-pixel objects) for complex64 / complex128 / float32 "
     "patches; the operator calls of ~40% of the direct cases and some chain / in-situ cases run under process-global torch state a user may have set (use_deterministic_algorithms(True), no_grad, "
     "inference_mode, default dtype float64), restored afterwards; "
+    "a third of the propagate cases and a third of the multislice chain cases sit in the corners of the physical parameter space: beam energy 100 eV .. 1 MeV (log-uniform and the values 100, 300, 1e3, 5e3, 2e4, 1e6) "
+    "crossed with real-space sampling 0.01 .. 5 A per axis (wavelength / sampling 1e-3 .. 10, i.e. including grids whose Nyquist frequency lies beyond 1 / wavelength), slice thicknesses 0.01 .. 1e4 A, tilts up to 100 mrad, "
+    "non-square ROIs and pixels (chain: set through ProbeBase.probe_params / Ptychography.slice_thicknesses on the real model); every propagate case uses waves with white spectral content (random complex field, delta function) and "
+    "additionally runs a direct 2-5 slice pure-phase multislice through both _propagate_array implementations and DetectorPixelated.forward; "
+    "a third of the chain and in-situ cases share the process with sibling ObjectPixelated / ProbePixelated models of another reconstruction that are configured through the public constraint setters "
+    "(gaussian_sigma, q_lowpass / q_highpass, apply_fov_mask, identical_slices, tv weights, baseline; center_probe ...) before and / or after the case's own models are built, and between two reconstruct() calls; "
     "non-trivial = non-zero shift / thickness with phase >= 0.5 rad / >= 1 repeated index / measured != predicted amplitudes / raw object off the unit circle by >= 0.5; "
     "distinct = (operator, ROI parity+squareness, modes, dtype/backend or object type)"
 )
@@ -42,6 +48,10 @@ ASSUMPTIONS = [
     "per-pixel adjoint identity: |sum_patches(P)[p] - float64 sum of the patch values extracted from p| <= tol * sum of their magnitudes (1e-4 for 32-bit, 1e-10 for 64-bit patches; measured 4.4e-7 / 0), pixels no patch covers are exactly zero",
     "process-global torch state is varied only around the operator calls (scenes are built in the default state) and always restored; in situ only use_deterministic_algorithms(True) is used",
     "in-situ events whose inputs are not finite (optimiser diverged) are counted, not judged; pure-phase conservation is judged with apply_fov_mask and identical_slices off",
+    "the Fresnel kernel exp(-i pi lambda z k^2) (and the tilt ramp) is a pure phase at every frequency of the grid for every energy, sampling and thickness: unit modulus / inverse / energy are judged with the same float32 bounds "
+    "in the corners of the parameter space (measured <= 3.8e-7 with phases up to ~1e8 rad); additivity stays relative to 1 + max phase",
+    "the cases never set an amplitude-changing object constraint on their own model, so whether a case is energy-conserving is decided by its object type, not read back from the model's constraint dict; "
+    "sibling models are only configured (constraint setters), never evaluated or judged",
 ]
 BUDGET = {"quick": {"soft_s": 300, "workers": 14}, "thorough": {"soft_s": 1200, "workers": 14}}
 MIN_EVALUATIONS = {"quick": 3000, "thorough": 30000}
@@ -50,6 +60,7 @@ REQUIRED_COUNTERS = [
     "eval:propagation_energy", "eval:propagation_inverse", "eval:scatter_not_adjoint", "eval:pure_phase_intensity_not_conserved",
     "eval:projection_amplitude_mismatch", "eval:projection_not_idempotent", "eval:detector_parseval", "insitu_cases_completed",
     "rejected_calls_caught", "eval:translation_depends_on_shift_dtype",
+    "propagate_corner:nyquist_gt_inv_wavelength", "propagate_corner:nyquist_le_inv_wavelength", "chain_corner_energy_thickness", "sibling_object_with_amplitude_changing_constraint",
 ]
 
 T64 = 1e-10
@@ -478,6 +489,27 @@ def _run_translate(spec, idx, ctx):
 # propagate
 
 
+CORNER_ENERGIES = (100.0, 300.0, 1e3, 5e3, 20e3, 1e6)  # eV: LEEM / low-voltage SEM ... high-voltage TEM
+
+
+def _corner_parameters(rng, lam_of):
+    """Corners of the physical parameter space: energy 100 eV .. 1 MeV crossed with sampling 0.01 .. 5 A per axis (wavelength / sampling
+    spans 1e-3 .. 10, so the Nyquist frequency of the grid may lie beyond 1 / wavelength), slice thicknesses 0.01 .. 1e4 A, tilts up to 100 mrad.
+    Nothing in the property (or in the Fresnel kernel exp(-i pi lambda z k^2)) singles out a sub-domain of these."""
+    E = float(rng.choice(CORNER_ENERGIES)) if rng.random() < 0.4 else float(10 ** rng.uniform(2, 6))
+    lam = float(lam_of(E))
+
+    def axis():
+        if rng.random() < 0.5:
+            return float(10 ** rng.uniform(-2, np.log10(5.0)))
+        return float(np.clip(lam / 10 ** rng.uniform(-3, 1), 0.01, 5.0))  # wavelength / sampling log-uniform on 1e-3 .. 10
+
+    a = axis()
+    samp = (a, a) if rng.random() < 0.4 else (a, axis())
+    z = [float(10 ** rng.uniform(-2, 4)) for _ in range(2)]
+    return E, samp, z
+
+
 def _run_propagate(spec, idx, ctx):
     st = ctx.state
     torch = st["torch"]
@@ -485,32 +517,59 @@ def _run_propagate(spec, idx, ctx):
 
     rng = ctx.rng(idx)
     h, w = _shape(rng)
-    E = float(rng.uniform(30e3, 300e3))
+    corner = spec["i"] % 3 == 2
     tilted = spec["i"] % 2 == 1
-    tilt = (float(rng.uniform(-30, 30)), float(rng.uniform(-30, 30))) if tilted else (0.0, 0.0)
+    if corner:
+        E, samp, (z1, z2) = _corner_parameters(rng, electron_wavelength_angstrom)
+        tmax = 100.0
+    else:
+        E = float(rng.uniform(30e3, 300e3))
+        tmax = 30.0
+    tilt = (float(rng.uniform(-tmax, tmax)), float(rng.uniform(-tmax, tmax))) if tilted else (0.0, 0.0)
     if tilted and rng.random() < 0.3:
         tilt = (tilt[0], 0.0)
     pm = st["pm"].ProbePixelated.from_params({"energy": E, "semiangle_cutoff": 20.0, "defocus": 0.0}, num_probes=1, roi_shape=(h, w), probe_tilt=tilt)
-    samp = (float(rng.uniform(0.1, 0.6)), float(rng.uniform(0.1, 0.6)))
-    z1, z2 = (float(10 ** rng.uniform(-1, np.log10(50.0))) for _ in range(2))
+    if not corner:
+        samp = (float(rng.uniform(0.1, 0.6)), float(rng.uniform(0.1, 0.6)))
+        z1, z2 = (float(10 ** rng.uniform(-1, np.log10(50.0))) for _ in range(2))
     th = np.array([z1, z2, z1 + z2, -z1, -z2, -(z1 + z2)])
     P = pm._compute_propagator_arrays(samp, len(th) + 1, th)
-    f = dict(global_state=ctx.state.get("gs", "default"), operator="propagate", where="direct", dtype=str(P.dtype).replace("torch.", ""), parity=_parity((h, w)), tilted=tilted)
+    lam = float(electron_wavelength_angstrom(E))
+    # the joint regime no single parameter reveals: the largest spatial frequency of the grid exceeds 1 / wavelength
+    beyond = bool(max(0.5 / samp[0], 0.5 / samp[1]) * lam > 1.0)
+    regime = "nyquist_gt_inv_wavelength" if beyond else "nyquist_le_inv_wavelength"
+    if corner:
+        ctx.count("propagate_corner:" + regime)
+    f = dict(global_state=ctx.state.get("gs", "default"), operator="propagate", where="direct", dtype=str(P.dtype).replace("torch.", ""), parity=_parity((h, w)), tilted=tilted, domain="corner" if corner else "tem", regime=regime)
     if not ctx.check(tuple(P.shape) == (6, h, w) and P.is_complex(), "propagator_shape_dtype", "propagators %s %s for roi %s and 6 thicknesses" % (tuple(P.shape), P.dtype, (h, w)), **f):
         return
     Pn = _np(P).astype(np.complex128)
-    lam = float(electron_wavelength_angstrom(E))
     kmax2 = (0.5 / samp[0]) ** 2 + (0.5 / samp[1]) ** 2
     phimax = np.pi * lam * (z1 + z2) * kmax2 + 2 * np.pi * (z1 + z2) * (abs(np.tan(tilt[0] / 1e3)) * 0.5 / samp[0] + abs(np.tan(tilt[1] / 1e3)) * 0.5 / samp[1])
-    ctx.close(np.abs(np.abs(Pn) - 1).max(), T32, "propagator_not_unit_modulus", lambda: "| |P_z| - 1 |, z=%s tilt=%s E=%.0f" % (th[:2].tolist(), tilt, E), **f)
-    ctx.close(np.abs(Pn[0] * Pn[1] - Pn[2]).max() / (1 + phimax), PHASE_TOL, "propagator_additivity", lambda: "|P(z1)P(z2) - P(z1+z2)| / (1+max phase %.1f), z=%s tilt=%s" % (phimax, th[:2].tolist(), tilt), **f)
-    ctx.close(max(np.abs(Pn[3 + j] - Pn[j].conj()).max() for j in range(3)), T32, "propagator_inverse", lambda: "P(-z) - conj P(z), z=%s tilt=%s" % (th[:2].tolist(), tilt), track="conj", **f)
-    ctx.close(max(np.abs(Pn[3 + j] * Pn[j] - 1).max() for j in range(3)), T32, "propagator_inverse", lambda: "P(-z) P(z) - 1", track="product", **f)
+    par = lambda: "z=%s tilt=%s E=%.6g sampling=%s roi=%s k_max*lambda=%.3g" % (th[:2].tolist(), tilt, E, samp, (h, w), max(0.5 / samp[0], 0.5 / samp[1]) * lam)  # noqa: E731
+    ctx.close(np.abs(np.abs(Pn) - 1).max(), T32, "propagator_not_unit_modulus", lambda: "| |P_z| - 1 | over every frequency of the grid, " + par(), **f)
+    ctx.close(np.abs(Pn[0] * Pn[1] - Pn[2]).max() / (1 + phimax), PHASE_TOL, "propagator_additivity", lambda: "|P(z1)P(z2) - P(z1+z2)| / (1+max phase %.1f), " % phimax + par(), **f)
+    ctx.close(max(np.abs(Pn[3 + j] - Pn[j].conj()).max() for j in range(3)), T32, "propagator_inverse", lambda: "P(-z) - conj P(z), " + par(), track="conj", **f)
+    ctx.close(max(np.abs(Pn[3 + j] * Pn[j] - 1).max() for j in range(3)), T32, "propagator_inverse", lambda: "P(-z) P(z) - 1, " + par(), track="product", **f)
     nb, nm = int(rng.integers(1, 4)), int(rng.integers(1, 4))
+    # white spectral content (every frequency of the grid populated): a random complex field and a delta function
     xn = (rng.normal(size=(nm, nb, h, w)) + 1j * rng.normal(size=(nm, nb, h, w))) * 10.0 ** rng.uniform(-2, 2)
     x = torch.tensor(xn)
     xmax = float(np.abs(xn).max())
     e0 = float((np.abs(xn) ** 2).sum())
+    amp = complex(rng.normal(), rng.normal()) * 10.0 ** rng.uniform(-2, 2)
+    dn = np.zeros((1, 1, h, w), complex)
+    dn[0, 0, int(rng.integers(h)), int(rng.integers(w))] = amp
+    delta = torch.tensor(dn)
+    # pure-phase multislice through the same operators: S slices of unit-modulus transmission, S-1 propagations, far field
+    S = int(rng.integers(2, 6))
+    zs = np.array([float(10 ** rng.uniform(-2, 4)) if corner else float(rng.uniform(1.0, 30.0)) for _ in range(S - 1)])
+    if S > 2 and rng.random() < 0.3:
+        zs[:] = zs[0]
+    Pm = pm._compute_propagator_arrays(samp, S, zs)
+    trans = torch.tensor(np.exp(1j * rng.uniform(-np.pi, np.pi, size=(S, nb, h, w))))
+    det = st["dm"].DetectorPixelated()
+    ptot = (np.abs(xn) ** 2).sum((0, 2, 3))  # per pattern: all modes of the incoming wave
     for name, owner in (("ptychography_base", st["pb"].PtychographyBase), ("object_models", st["om"].ObjectBase)):
         fn = getattr(owner, "_propagate_array", None)
         if fn is None:
@@ -518,14 +577,27 @@ def _run_propagate(spec, idx, ctx):
             continue
         g = dict(f, impl=name, dtype="complex128")
         y = fn(None, x, P[0])
-        ctx.close(float((y.abs() ** 2).sum()) / e0 - 1, T32, "propagation_energy", lambda: "sum|P_z x|^2 / sum|x|^2 - 1, z=%.3f" % z1, track="c128", **g)
-        ctx.close(float((fn(None, y, P[3]) - x).abs().max()) / xmax, T32, "propagation_inverse", lambda: "P_{-z} P_z x - x, z=%.3f tilt=%s" % (z1, tilt), **g)
+        ctx.close(float((y.abs() ** 2).sum()) / e0 - 1, T32, "propagation_energy", lambda: "sum|P_z x|^2 / sum|x|^2 - 1 (white random field), " + par(), track="c128", **g)
+        ctx.close(float((fn(None, y, P[3]) - x).abs().max()) / xmax, T32, "propagation_inverse", lambda: "P_{-z} P_z x - x, " + par(), **g)
         y12 = fn(None, fn(None, x, P[0]), P[1])
-        ctx.close(float((y12 - fn(None, x, P[2])).abs().max()) / xmax / (1 + phimax), PHASE_TOL, "propagation_additivity", lambda: "P_{z2} P_{z1} x - P_{z1+z2} x (per 1+max phase)", **g)
+        ctx.close(float((y12 - fn(None, x, P[2])).abs().max()) / xmax / (1 + phimax), PHASE_TOL, "propagation_additivity", lambda: "P_{z2} P_{z1} x - P_{z1+z2} x (per 1+max phase), " + par(), **g)
         y32 = fn(None, x.to(torch.complex64), P[0])
-        ctx.close(float((y32.abs().double() ** 2).sum()) / e0 - 1, T32, "propagation_energy", "complex64", track="c64", **dict(g, dtype="complex64"))
-    ctx.nontrivial(("propagate", _par((h, w)), "tilt" if tilted else "notilt", "E%d" % (int(E) // 100000)), phimax >= 0.5)
-    ctx.observe(roi=[h, w], energy=E, tilt=list(tilt), thicknesses=[z1, z2], max_phase=float(phimax))
+        ctx.close(float((y32.abs().double() ** 2).sum()) / e0 - 1, T32, "propagation_energy", lambda: "complex64, " + par(), track="c64", **dict(g, dtype="complex64"))
+        # a delta function has the same magnitude at every frequency before and after propagation, and comes back exactly
+        yd = fn(None, delta, P[1])
+        Fd = np.abs(np.fft.fft2(_np(yd)[0, 0])) / abs(amp)
+        ctx.close(float(np.abs(Fd - 1).max()), T32, "propagation_energy", lambda: "delta function: | |F(P_z delta)(k)| / |F(delta)(k)| - 1 | over every frequency, " + par(), track="delta", **g)
+        ctx.close(float((fn(None, yd, P[4]) - delta).abs().max()) / abs(amp), T32, "propagation_inverse", lambda: "delta function: P_{-z} P_z delta - delta, " + par(), **g)
+        for dt, tr in ((torch.complex128, "direct_multislice:c128"), (torch.complex64, "direct_multislice:c64")):
+            wave = trans[0].to(dt) * x.to(dt)
+            for s_ in range(1, S):
+                wave = trans[s_].to(dt) * fn(None, wave, Pm[s_ - 1])
+            I = det.forward(wave)
+            ctx.close(float(np.abs(_np(I).astype(np.float64).sum((-2, -1)) / ptot - 1).max()), CONS_TOL, "pure_phase_intensity_not_conserved",
+                      lambda: "direct multislice (%d pure-phase slices, thicknesses %s, %d modes, white random wave): per-pattern sum I / sum|wave|^2 - 1, " % (S, zs.tolist(), nm) + par(),
+                      track=tr, **dict(g, operator="chain", obj_type="pure_phase", dtype=str(dt).replace("torch.", ""), modes="single" if nm == 1 else "mixed"))
+    ctx.nontrivial(("propagate", _par((h, w)), "tilt" if tilted else "notilt", "E%d" % int(np.log10(E)), "corner" if corner else "tem", regime), phimax >= 0.5)
+    ctx.observe(roi=[h, w], energy=E, sampling=list(samp), wavelength=lam, nyquist_times_wavelength=float(max(0.5 / samp[0], 0.5 / samp[1]) * lam), tilt=list(tilt), thicknesses=[z1, z2], multislice_thicknesses=zs.tolist(), max_phase=float(phimax), domain="corner" if corner else "tem")
 
 
 # ------------------------------------------------------------------------------------------------
@@ -790,9 +862,64 @@ def _run_projection(spec, idx, ctx):
 
 
 def _live(ctx, pt, sc, where):
-    oc = pt.obj_model.constraints
-    conserving = sc.obj_type in ("pure_phase", "potential") and not oc.get("apply_fov_mask") and not oc.get("identical_slices") and not oc.get("gaussian_sigma") and not oc.get("q_lowpass") and not oc.get("q_highpass")
+    # the cases never configure an amplitude-changing object constraint (apply_fov_mask, identical_slices, gaussian_sigma, q_lowpass, q_highpass) on their
+    # *own* model, so a pure-phase / potential object conserves the probe intensity.  Deliberately not read back from pt.obj_model.constraints: what another
+    # model of the process was configured with must not decide whether this one is judged
+    conserving = sc.obj_type in ("pure_phase", "potential")
     return {"where": where, "obj_type": sc.obj_type, "slices": sc.num_slices, "conserving": bool(conserving)}
+
+
+AMPLITUDE_CHANGING = ("gaussian_sigma", "q_lowpass", "q_highpass", "q_band", "apply_fov_mask", "identical_slices")
+
+
+def _sibling_models(ctx, rng, roi):
+    """Another reconstruction's models living in the same process (a second object / probe model of the same classes), configured by their
+    user through the public constraint setters with settings that are legitimate *for them* (a smoothed, band-limited, masked or slice-averaged
+    object; a centred probe).  Nothing is judged on the siblings; the case's own models, left at their defaults, must obey the identities
+    whatever the siblings were told.  Returns the siblings (kept alive by the caller) and the settings made."""
+    st = ctx.state
+    om, pmod = st["om"], st["pm"]
+    made = []
+    keep = []
+    for _ in range(int(rng.integers(1, 3))):
+        S = int(rng.integers(1, 4))
+        H, W = int(roi[0] + rng.integers(2, 20)), int(roi[1] + rng.integers(2, 20))
+        ot = ["pure_phase", "complex", "potential", "pure_phase"][int(rng.integers(4))]
+        arr = rng.uniform(0, 1, size=(S, H, W)).astype(np.float32) if ot == "potential" else np.exp(1j * rng.uniform(-np.pi, np.pi, size=(S, H, W))).astype(np.complex64)
+        sib = om.ObjectPixelated.from_array(arr, slice_thicknesses=[float(rng.uniform(2, 20))] * (S - 1) if S > 1 else None, obj_type=ot)
+        menu = {
+            "gaussian_sigma": {"gaussian_sigma": float(rng.uniform(0.6, 2.5))},
+            "q_lowpass": {"q_lowpass": float(rng.uniform(0.2, 1.0))},
+            "q_highpass": {"q_highpass": float(rng.uniform(0.02, 0.2))},
+            "q_band": {"q_lowpass": float(rng.uniform(0.5, 1.0)), "q_highpass": float(rng.uniform(0.02, 0.2)), "butterworth_order": int(rng.integers(1, 7))},
+            "apply_fov_mask": {"apply_fov_mask": True},
+            "identical_slices": {"identical_slices": True},
+            "tv": {"tv_weight_xy": float(rng.uniform(0.01, 1.0)), "tv_weight_z": float(rng.uniform(0.0, 1.0))},
+            "baseline": {"fix_potential_baseline": True, "positivity": False},
+        }
+        names = sorted(menu)
+        pw = np.array([3.0 if nm in AMPLITUDE_CHANGING else 1.0 for nm in names])
+        for nm in rng.choice(names, size=int(rng.integers(1, 4)), replace=False, p=pw / pw.sum()):
+            c = menu[str(nm)]
+            if rng.random() < 0.5:
+                sib.constraints = dict(c)
+            else:
+                for k, v in c.items():
+                    sib.add_constraint(k, v)
+            made.append("object(%s):%s" % (ot, nm))
+        keep.append(sib)
+    if rng.random() < 0.5:
+        M = int(rng.integers(1, 4))
+        prb = (rng.normal(size=(M, *roi)) + 1j * rng.normal(size=(M, *roi))).astype(np.complex64)
+        sp = pmod.ProbePixelated.from_array(prb, num_probes=M, probe_params={"energy": float(rng.choice([60e3, 200e3]))})
+        c = [{"center_probe": True}, {"orthogonalize_probe": False}, {"tv_weight": float(rng.uniform(0.01, 1.0))}, {"center_probe": True, "orthogonalize_probe": False}][int(rng.integers(4))]
+        sp.constraints = dict(c)
+        made.append("probe:" + "+".join(sorted(c)))
+        keep.append(sp)
+    ctx.count("sibling_models_configured")
+    if any(m.split(":")[1] in AMPLITUDE_CHANGING for m in made if m.startswith("object")):
+        ctx.count("sibling_object_with_amplitude_changing_constraint")
+    return keep, made
 
 
 def _run_chain(spec, idx, ctx):
@@ -804,9 +931,32 @@ def _run_chain(spec, idx, ctx):
     roi = _scene_roi(rng, spec["i"] // 3)
     sc = scenes.make_scene(rng, obj_type=ot, num_slices=S, num_modes=M, roi=roi)
     dmask, dkind = _detector_mask(rng, roi) if (spec["i"] // 2) % 2 else (None, "default")
+    # a third of the cases: another reconstruction's object / probe models exist in the same process, configured before and / or after this one is built
+    sib_when = ("before", "after", "both")[(spec["i"] // 6) % 3] if (spec["i"] // 2) % 3 == 1 else "none"
+    siblings, sib_made = [], []
+    if sib_when in ("before", "both"):
+        k_, m_ = _sibling_models(ctx, rng, roi)
+        siblings += k_
+        sib_made += m_
     pt = scenes.build_library(sc, scenes.simulate_scene(sc), seed=int(rng.integers(1 << 30)), detector_mask=dmask)
+    if sib_when in ("after", "both"):
+        k_, m_ = _sibling_models(ctx, rng, roi)
+        siblings += k_
+        sib_made += m_
+    # a third of the multislice cases: corners of the physical parameter space through the public setters of the real model (beam energy 100 eV .. 1 MeV,
+    # slice thicknesses 0.01 .. 1e4 A); with the scene's 0.2-0.5 A pixels the low energies put the grid's Nyquist frequency beyond 1 / wavelength.
+    # The chain identities need unit-modulus propagators only, whatever energy the data were simulated at.
+    corner = S > 1 and spec["i"] % 3 == 1
+    corner_E = None
+    if corner:
+        corner_E = float(10 ** rng.uniform(2, np.log10(600.0))) if rng.random() < 0.5 else float(10 ** rng.uniform(2, 6))
+        pt.probe_model.probe_params = {"energy": corner_E}
+        zs = [float(10 ** rng.uniform(-2, 4)) for _ in range(S - 1)]
+        pt.slice_thicknesses = zs if rng.random() < 0.7 else zs[0]
+        ctx.count("chain_corner_energy_thickness")
     st["stack"].enter_context(_global_state(ctx, ("default", "deterministic", "default", "default_float64", "default", "deterministic")[(spec["i"] // 4) % 6]))
-    f = dict(global_state=ctx.state.get("gs", "default"), operator="chain", where="chain", obj_type=ot, dtype="complex64", parity=_parity(roi), modes="single" if M == 1 else "mixed")
+    f = dict(global_state=ctx.state.get("gs", "default"), operator="chain", where="chain", obj_type=ot, dtype="complex64", parity=_parity(roi), modes="single" if M == 1 else "mixed",
+             siblings=sib_when, domain="corner" if corner else "tem")
     with torch.no_grad():
         raw = pt.obj_model._obj
         scale = float(10.0 ** rng.uniform(-1, 1.5))
@@ -854,8 +1004,10 @@ def _run_chain(spec, idx, ctx):
                 _judge_projection(ctx, pt, targets, overlap, res, where=f["where"], insitu=True)
             finally:
                 st["busy"] = False
-    ctx.nontrivial(("chain", ot, S, M, _par(roi), "after_error" if rejected else "fresh", dkind, ctx.state.get("gs", "default")), off_circle >= 0.5 and nfrac >= 1)
-    ctx.observe(scene=sc.describe(), raw_scale=scale, off_unit_circle=off_circle, fractional_positions=nfrac, batch=nb, rejected_calls=rejected, detector_mask=dkind, global_state=ctx.state.get("gs", "default"))
+    ctx.nontrivial(("chain", ot, S, M, _par(roi), "after_error" if rejected else "fresh", dkind, ctx.state.get("gs", "default"), sib_when, "corner" if corner else "tem"), off_circle >= 0.5 and nfrac >= 1)
+    ctx.observe(scene=sc.describe(), raw_scale=scale, off_unit_circle=off_circle, fractional_positions=nfrac, batch=nb, rejected_calls=rejected, detector_mask=dkind, global_state=ctx.state.get("gs", "default"),
+                sibling_models=sib_made, siblings_when=sib_when, corner_energy=corner_E, slice_thicknesses=[float(v) for v in np.atleast_1d(pt.slice_thicknesses)] if S > 1 else [])
+    del siblings
 
 
 def _run_insitu(spec, idx, ctx):
@@ -872,6 +1024,9 @@ def _run_insitu(spec, idx, ctx):
     mask_late = dmask is not None and rng.random() < 0.3
     sc, sc_h, pt, _mean_I = insitu.hostile_library(rng, obj_type=ot, num_slices=S, num_modes=M, roi=roi, corr=float(rng.choice([0.0, 0.5, 0.8])), obj_scale=float(10 ** rng.uniform(0, 1)), seed=int(rng.integers(1 << 30)),
                                                    detector_mask=None if mask_late else dmask)
+    # a third of the cases: another reconstruction's models are configured in the same process after this one was built (and again between the two reconstruct() calls)
+    sib = (i // 2) % 3 == 0
+    siblings, sib_made = _sibling_models(ctx, rng, roi) if sib else ([], [])
     gs = "deterministic" if i % 5 == 4 else "default"
     st["stack"].enter_context(_global_state(ctx, gs))
     J = pt.dset.num_gpts
@@ -893,13 +1048,19 @@ def _run_insitu(spec, idx, ctx):
             rejected += _rejected_calls(ctx, pt, rng, int(rng.integers(1, 3)), L["where"])
         if mask_late:
             pt.dset.detector_mask = dmask
+        if sib and i % 4 == 0:
+            st["live"] = None
+            k_, m_ = _sibling_models(ctx, rng, roi)
+            siblings += k_
+            sib_made += m_
+            st["live"] = L
         insitu.run_hostile(pt, num_iters=2, lr_obj=lr_o, lr_probe=lr_p, batch_size=bs, autograd=autograd, opt="adam" if autograd else "sgd")
     finally:
         st["live"] = None
     ctx.count("insitu_cases_completed")
     fired = {k.replace("eval:", ""): ctx.counters.get(k, 0) - v for k, v in before.items()}
-    ctx.nontrivial(("insitu", ot, S, M, _par(roi), "ad" if autograd else "gd", "after_error" if rejected else "fresh", dkind, gs), off_circle >= 0.5 and sum(fired.values()) > 0)
-    ctx.observe(scene=sc.describe(), detector_mask=dkind, mask_installed_late=bool(mask_late), global_state=gs, rejected_calls=rejected, autograd=autograd, batch=bs, lr=[lr_o, lr_p], monitor_events=fired, final_loss=float(pt.iter_losses[-1]) if len(pt.iter_losses) else None,
+    ctx.nontrivial(("insitu", ot, S, M, _par(roi), "ad" if autograd else "gd", "after_error" if rejected else "fresh", dkind, gs, "siblings" if sib else "alone"), off_circle >= 0.5 and sum(fired.values()) > 0)
+    ctx.observe(scene=sc.describe(), sibling_models=sib_made, detector_mask=dkind, mask_installed_late=bool(mask_late), global_state=gs, rejected_calls=rejected, autograd=autograd, batch=bs, lr=[lr_o, lr_p], monitor_events=fired, final_loss=float(pt.iter_losses[-1]) if len(pt.iter_losses) else None,
                 max_raw_obj=float(np.abs(_np(pt.obj_model._obj)).max()))
 
 
